@@ -239,7 +239,9 @@ class Signal
                 if (index) {
                     const auto con = m_connections.get(*index);
 
-                    if (!con->blocked) {
+                    // A connection whose disconnection was requested earlier in this emission is as good as gone:
+                    // its slot must not run any more (whoever disconnected it may have destroyed what the slot refers to).
+                    if (!con->blocked && !con->toBeDisconnected) {
                         if (con->slotReflective) {
                             if (auto sharedThis = shared_from_this(); sharedThis) {
                                 ConnectionHandle handle(sharedThis, *index);
